@@ -49,6 +49,8 @@ pub struct Scenario {
 	pub crash: Option<crate::crashmc::CrashCfg>,
 	/// inject a persistent I/O failure at every file-operation index of every edge's event (E2 family 5)
 	pub faults: bool,
+	/// after the failing step: one more enact and cleanup step, then a power loss (C12 x C16)
+	pub faults_then_power_loss: bool,
 	pub check_iter_rc: bool,
 }
 
@@ -74,6 +76,7 @@ impl Scenario {
 			drain_event: false,
 			crash: None,
 			faults: false,
+			faults_then_power_loss: false,
 			check_iter_rc: true,
 		}
 	}
@@ -730,7 +733,7 @@ pub fn encode_edge(r: &EdgeRes) -> Vec<u8> {
 		EdgeRes::Ok(o) => json!({"t": "ok", "id": format!("{:032x}", o.identity), "model": o.model, "obs": o.obs,
 			"ms": o.multi_stage, "pm": o.pm_steps, "rej": o.rejected, "mask": o.pm_mask, "known": o.known,
 			"cp": o.crash.crash_points, "ci": o.crash.images, "cd": o.crash.distinct_images, "cr": o.crash.recoveries, "cn": o.crash.nested_recoveries,
-			"fr": o.faults.runs, "fh": o.faults.faults_hit, "fe": o.faults.errors_reported, "fc": o.faults.commits_refused, "fo": o.faults.reopened, "fm": o.faults.max_ops_in_step,
+			"fr": o.faults.runs, "fh": o.faults.faults_hit, "fe": o.faults.errors_reported, "fc": o.faults.commits_refused, "fo": o.faults.reopened, "fm": o.faults.max_ops_in_step, "fp": o.faults.power_loss_images,
 			"cpl": o.crash.power_loss_images, "cmd": o.crash.max_dirty_pages, "csc": o.crash.subsets_capped, "crt": o.crash.recovered_to}),
 	};
 	serde_json::to_vec(&j).unwrap()
@@ -757,6 +760,7 @@ pub fn decode_edge(b: &[u8]) -> EdgeRes {
 				commits_refused: j["fc"].as_u64().unwrap(),
 				reopened: j["fo"].as_u64().unwrap(),
 				max_ops_in_step: j["fm"].as_u64().unwrap(),
+				power_loss_images: j["fp"].as_u64().unwrap(),
 			},
 			crash: crate::crashmc::CrashStats {
 				crash_points: j["cp"].as_u64().unwrap(),
